@@ -16,7 +16,7 @@ use std::path::PathBuf;
 
 // ---------------- generated programs ----------------
 
-#[derive(Clone, Debug)]
+#[derive(Clone, Debug, PartialEq)]
 pub enum POp {
     Arg(String),
     Args(Vec<String>),
@@ -25,14 +25,14 @@ pub enum POp {
     WdDir(String),
 }
 
-#[derive(Clone, Debug)]
+#[derive(Clone, Debug, PartialEq)]
 pub struct Proc {
     ty: String,
     command: Vec<String>,
     ops: Vec<POp>,
 }
 
-#[derive(Clone, Debug)]
+#[derive(Clone, Debug, PartialEq)]
 pub enum LOp {
     Process(Proc),
     Processes(Vec<Proc>),
@@ -42,7 +42,7 @@ pub enum LOp {
     Slices(Vec<Vec<String>>),
 }
 
-#[derive(Clone, Debug)]
+#[derive(Clone, Debug, PartialEq)]
 pub enum BOp {
     Provides(String),
     Requires(String, Option<TV>),
@@ -94,7 +94,7 @@ fn proc_strategy() -> impl Strategy<Value = Proc> {
     (ptype(), svec(4), proptest::collection::vec(pop, 0..6)).prop_map(|(ty, command, ops)| Proc { ty, command, ops })
 }
 
-fn launch_strategy() -> impl Strategy<Value = Vec<LOp>> {
+pub fn launch_strategy() -> impl Strategy<Value = Vec<LOp>> {
     let kv = || (nasty_string(8), nasty_string(8));
     let lop = prop_oneof![
         4 => proc_strategy().prop_map(LOp::Process),
@@ -107,7 +107,7 @@ fn launch_strategy() -> impl Strategy<Value = Vec<LOp>> {
     proptest::collection::vec(lop, 0..8)
 }
 
-fn plan_strategy() -> impl Strategy<Value = Vec<BOp>> {
+pub fn plan_strategy() -> impl Strategy<Value = Vec<BOp>> {
     let bop = prop_oneof![
         3 => nasty_string(8).prop_map(BOp::Provides),
         3 => (nasty_string(8), proptest::option::of(meta_table(2))).prop_map(|(n, m)| BOp::Requires(n, m)),
@@ -342,68 +342,10 @@ fn check(ctx: &Ctx, env: &Env, d: &Doc) -> Check {
     match d {
         Doc::Launch(ops) => {
             ctx.class("doc:launch");
-            let mut b = LaunchBuilder::new();
-            let (mut mp, mut ml, mut ms): (Vec<MProc>, Vec<(String, String)>, Vec<Vec<String>>) = (vec![], vec![], vec![]);
-            for o in ops {
-                match o {
-                    LOp::Process(p) => {
-                        b.process(build_proc(p));
-                        mp.push(model_proc(p));
-                    }
-                    LOp::Processes(ps) => {
-                        b.processes(ps.iter().map(build_proc).collect::<Vec<_>>());
-                        mp.extend(ps.iter().map(model_proc));
-                    }
-                    LOp::Label(k, v) => {
-                        b.label(Label { key: k.clone(), value: v.clone() });
-                        ml.push((k.clone(), v.clone()));
-                    }
-                    LOp::Labels(l) => {
-                        b.labels(l.iter().map(|(k, v)| Label { key: k.clone(), value: v.clone() }).collect::<Vec<_>>());
-                        ml.extend(l.iter().cloned());
-                    }
-                    LOp::Slice(s) => {
-                        b.slice(Slice { path_globs: s.clone() });
-                        ms.push(s.clone());
-                    }
-                    LOp::Slices(ss) => {
-                        b.slices(ss.iter().map(|s| Slice { path_globs: s.clone() }).collect::<Vec<_>>());
-                        ms.extend(ss.iter().cloned());
-                    }
-                }
-            }
-            let launch = b.build();
+            let (launch, model) = build_launch(ops);
             w(write_toml_file(&launch, &path))?;
             let (text, tv) = text_of(&path)?;
-            only_keys(&tv, &["processes", "labels", "slices"], "launch.toml")?;
-            let procs = tables(&tv, "processes")?;
-            ensure!(procs.len() == mp.len(), "C07:launch-process-count", "{} processes read, {} constructed\n{text}", procs.len(), mp.len());
-            for (t, m) in procs.iter().zip(&mp) {
-                only_keys(t, &["type", "command", "args", "default", "working-dir"], "process")?;
-                let got = MProc {
-                    ty: t.get("type").and_then(TV::as_str).unwrap_or("<missing>").to_string(),
-                    command: tv_strs(t.get("command"))?,
-                    args: tv_strs(t.get("args"))?,
-                    default: match t.get("default") { None => false, Some(TV::Bool(b)) => *b, Some(_) => return Err(Fail::new("C07:wrong-kind", "default not a bool")) },
-                    wd: match t.get("working-dir") { None => None, Some(TV::Str(s)) => Some(s.clone()), Some(_) => return Err(Fail::new("C07:wrong-kind", "working-dir not a string")) },
-                };
-                ensure!(t.get("command").is_some(), "C07:launch-process-differs", "command key missing\n{text}");
-                // an explicit "." working-dir denotes the app directory as well (relative to the app dir)
-                let norm = |m: &MProc| { let mut m = m.clone(); if m.wd.as_deref() == Some(".") { m.wd = None; } m };
-                ensure!(norm(&got) == norm(m), "C07:launch-process-differs", "process read {got:?}, constructed {m:?}\n{text}");
-            }
-            let labels = tables(&tv, "labels")?;
-            ensure!(labels.len() == ml.len(), "C07:launch-label-count", "{} vs {}", labels.len(), ml.len());
-            for (t, (k, v)) in labels.iter().zip(&ml) {
-                only_keys(t, &["key", "value"], "label")?;
-                ensure!(t.get("key").and_then(TV::as_str) == Some(k) && t.get("value").and_then(TV::as_str) == Some(v), "C07:launch-label-differs", "label read {t:?}, constructed {k:?}={v:?}");
-            }
-            let slices = tables(&tv, "slices")?;
-            ensure!(slices.len() == ms.len(), "C07:launch-slice-count", "{} vs {}", slices.len(), ms.len());
-            for (t, s) in slices.iter().zip(&ms) {
-                only_keys(t, &["paths"], "slice")?;
-                ensure!(t.get("paths").is_some() && tv_strs(t.get("paths"))? == *s, "C07:launch-slice-differs", "slice read {t:?}, constructed {s:?}");
-            }
+            compare_launch(&tv, &model, &text)?;
             // libcnb reads it back equal
             let back: Launch = read_toml_file(&path).map_err(|e| Fail::new("C07:launch-does-not-read-back", format!("{e}\n{text}")))?;
             ensure!(back.processes == launch.processes, "C07:launch-readback-differs", "processes differ after read-back");
@@ -412,63 +354,15 @@ fn check(ctx: &Ctx, env: &Env, d: &Doc) -> Check {
         }
         Doc::BuildPlan(ops) => {
             ctx.class("doc:build-plan");
-            let mut b = BuildPlanBuilder::new();
-            // model: groups split at each `or`; the first group is the top level
-            let mut groups: Vec<(Vec<String>, Vec<(String, TV)>)> = vec![(vec![], vec![])];
-            for o in ops {
-                match o {
-                    BOp::Provides(n) => {
-                        b = b.provides(n);
-                        groups.last_mut().unwrap().0.push(n.clone());
-                    }
-                    BOp::Requires(n, m) => {
-                        let mut r = Require::new(n.clone());
-                        if let Some(m) = m {
-                            r.metadata(m.to_toml_table()).map_err(|e| Fail::new("C07:require-metadata-rejected", e.to_string()))?;
-                        }
-                        b = b.requires(r);
-                        groups.last_mut().unwrap().1.push((n.clone(), m.clone().unwrap_or(TV::Table(vec![]))));
-                    }
-                    BOp::Or => {
-                        b = b.or();
-                        groups.push((vec![], vec![]));
-                    }
-                }
-            }
+            let (plan, groups) = build_plan(ops)?;
             let n_or = ops.iter().filter(|o| matches!(o, BOp::Or)).count();
             if n_or >= 2 || groups.iter().any(|g| g.0.is_empty() && g.1.is_empty()) {
                 nt = true;
                 ctx.class("build-plan:>=2 or / empty group");
             }
-            let plan = b.build();
             w(write_toml_file(&plan, &path))?;
             let (text, tv) = text_of(&path)?;
-            only_keys(&tv, &["provides", "requires", "or"], "build plan")?;
-            let read_group = |t: &TV| -> Result<(Vec<String>, Vec<(String, TV)>), Fail> {
-                let mut prov = vec![];
-                for p in tables(t, "provides")? {
-                    only_keys(p, &["name"], "provides")?;
-                    prov.push(p.get("name").and_then(TV::as_str).ok_or_else(|| Fail::new("C07:plan-provide-without-name", text.clone()))?.to_string());
-                }
-                let mut req = vec![];
-                for r in tables(t, "requires")? {
-                    only_keys(r, &["name", "metadata"], "requires")?;
-                    let name = r.get("name").and_then(TV::as_str).ok_or_else(|| Fail::new("C07:plan-require-without-name", text.clone()))?.to_string();
-                    let meta = r.get("metadata").cloned().unwrap_or(TV::Table(vec![]));
-                    req.push((name, meta));
-                }
-                Ok((prov, req))
-            };
-            let mut got = vec![read_group(&tv)?];
-            for o in tables(&tv, "or")? {
-                only_keys(o, &["provides", "requires"], "or")?;
-                got.push(read_group(o)?);
-            }
-            ensure!(got.len() == groups.len(), "C07:plan-group-count", "{} groups read, {} constructed (ops {:?})\n{text}", got.len(), groups.len(), doc_json(d).to_string());
-            for (i, (g, m)) in got.iter().zip(&groups).enumerate() {
-                ensure!(g.0 == m.0, "C07:plan-provides-differ", "group {i}: provides read {:?}, constructed {:?}\n{text}", g.0, m.0);
-                ensure!(g.1.len() == m.1.len() && g.1.iter().zip(&m.1).all(|(a, b)| a.0 == b.0 && a.1.sem_eq(&b.1)), "C07:plan-requires-differ", "group {i}: requires read {:?}, constructed {:?}\n{text}", g.1, m.1);
-            }
+            compare_plan(&tv, &groups, &text)?;
         }
         Doc::Lcm(types, meta) => {
             ctx.class("doc:layer-content-metadata");
@@ -617,4 +511,172 @@ pub fn replay(ctx: &Ctx, _sub: &str, case: &Value) {
     let env = Env { scratch: Scratch::new("c07r"), reader: RefCell::new(TomlReader::new()) };
     let d = doc_from_json(case);
     ctx.check_case("replay", check(ctx, &env, &d), || case.clone());
+}
+
+// ---------------- reusable pieces (also used by C05, C20) ----------------
+
+pub struct LaunchModel {
+    procs: Vec<MProc>,
+    labels: Vec<(String, String)>,
+    slices: Vec<Vec<String>>,
+}
+
+pub fn build_launch(ops: &[LOp]) -> (Launch, LaunchModel) {
+    let mut b = LaunchBuilder::new();
+    let (mut mp, mut ml, mut ms): (Vec<MProc>, Vec<(String, String)>, Vec<Vec<String>>) = (vec![], vec![], vec![]);
+    for o in ops {
+        match o {
+            LOp::Process(p) => {
+                b.process(build_proc(p));
+                mp.push(model_proc(p));
+            }
+            LOp::Processes(ps) => {
+                b.processes(ps.iter().map(build_proc).collect::<Vec<_>>());
+                mp.extend(ps.iter().map(model_proc));
+            }
+            LOp::Label(k, v) => {
+                b.label(Label { key: k.clone(), value: v.clone() });
+                ml.push((k.clone(), v.clone()));
+            }
+            LOp::Labels(l) => {
+                b.labels(l.iter().map(|(k, v)| Label { key: k.clone(), value: v.clone() }).collect::<Vec<_>>());
+                ml.extend(l.iter().cloned());
+            }
+            LOp::Slice(s) => {
+                b.slice(Slice { path_globs: s.clone() });
+                ms.push(s.clone());
+            }
+            LOp::Slices(ss) => {
+                b.slices(ss.iter().map(|s| Slice { path_globs: s.clone() }).collect::<Vec<_>>());
+                ms.extend(ss.iter().cloned());
+            }
+        }
+    }
+    (b.build(), LaunchModel { procs: mp, labels: ml, slices: ms })
+}
+
+/// the spec reader: only the spec's field names and defaults
+pub fn compare_launch(tv: &TV, m: &LaunchModel, text: &str) -> Check {
+    only_keys(tv, &["processes", "labels", "slices"], "launch.toml")?;
+    let procs = tables(tv, "processes")?;
+    ensure!(procs.len() == m.procs.len(), "C07:launch-process-count", "{} processes read, {} constructed\n{text}", procs.len(), m.procs.len());
+    for (t, mp) in procs.iter().zip(&m.procs) {
+        only_keys(t, &["type", "command", "args", "default", "working-dir"], "process")?;
+        let got = MProc {
+            ty: t.get("type").and_then(TV::as_str).unwrap_or("<missing>").to_string(),
+            command: tv_strs(t.get("command"))?,
+            args: tv_strs(t.get("args"))?,
+            default: match t.get("default") {
+                None => false,
+                Some(TV::Bool(b)) => *b,
+                Some(_) => return Err(Fail::new("C07:wrong-kind", "default not a bool")),
+            },
+            wd: match t.get("working-dir") {
+                None => None,
+                Some(TV::Str(s)) => Some(s.clone()),
+                Some(_) => return Err(Fail::new("C07:wrong-kind", "working-dir not a string")),
+            },
+        };
+        ensure!(t.get("command").is_some(), "C07:launch-process-differs", "command key missing\n{text}");
+        // an explicit "." working-dir denotes the app directory as well (relative to the app dir)
+        let norm = |m: &MProc| {
+            let mut m = m.clone();
+            if m.wd.as_deref() == Some(".") {
+                m.wd = None;
+            }
+            m
+        };
+        ensure!(norm(&got) == norm(mp), "C07:launch-process-differs", "process read {got:?}, constructed {mp:?}\n{text}");
+    }
+    let labels = tables(tv, "labels")?;
+    ensure!(labels.len() == m.labels.len(), "C07:launch-label-count", "{} vs {}", labels.len(), m.labels.len());
+    for (t, (k, v)) in labels.iter().zip(&m.labels) {
+        only_keys(t, &["key", "value"], "label")?;
+        ensure!(t.get("key").and_then(TV::as_str) == Some(k) && t.get("value").and_then(TV::as_str) == Some(v), "C07:launch-label-differs", "label read {t:?}, constructed {k:?}={v:?}");
+    }
+    let slices = tables(tv, "slices")?;
+    ensure!(slices.len() == m.slices.len(), "C07:launch-slice-count", "{} vs {}", slices.len(), m.slices.len());
+    for (t, s) in slices.iter().zip(&m.slices) {
+        only_keys(t, &["paths"], "slice")?;
+        ensure!(t.get("paths").is_some() && tv_strs(t.get("paths"))? == *s, "C07:launch-slice-differs", "slice read {t:?}, constructed {s:?}");
+    }
+    Ok(())
+}
+
+pub type PlanGroups = Vec<(Vec<String>, Vec<(String, TV)>)>;
+
+/// builds the plan through the public builder and, independently, the model: groups split at each `or`, first group top-level
+pub fn build_plan(ops: &[BOp]) -> Result<(libcnb_data::build_plan::BuildPlan, PlanGroups), Fail> {
+    let mut b = BuildPlanBuilder::new();
+    let mut groups: PlanGroups = vec![(vec![], vec![])];
+    for o in ops {
+        match o {
+            BOp::Provides(n) => {
+                b = b.provides(n);
+                groups.last_mut().unwrap().0.push(n.clone());
+            }
+            BOp::Requires(n, m) => {
+                let mut r = Require::new(n.clone());
+                if let Some(m) = m {
+                    r.metadata(m.to_toml_table()).map_err(|e| Fail::new("C07:require-metadata-rejected", e.to_string()))?;
+                }
+                b = b.requires(r);
+                groups.last_mut().unwrap().1.push((n.clone(), m.clone().unwrap_or(TV::Table(vec![]))));
+            }
+            BOp::Or => {
+                b = b.or();
+                groups.push((vec![], vec![]));
+            }
+        }
+    }
+    Ok((b.build(), groups))
+}
+
+pub fn compare_plan(tv: &TV, groups: &PlanGroups, text: &str) -> Check {
+    only_keys(tv, &["provides", "requires", "or"], "build plan")?;
+    let read_group = |t: &TV| -> Result<(Vec<String>, Vec<(String, TV)>), Fail> {
+        let mut prov = vec![];
+        for p in tables(t, "provides")? {
+            only_keys(p, &["name"], "provides")?;
+            prov.push(p.get("name").and_then(TV::as_str).ok_or_else(|| Fail::new("C07:plan-provide-without-name", text.to_string()))?.to_string());
+        }
+        let mut req = vec![];
+        for r in tables(t, "requires")? {
+            only_keys(r, &["name", "metadata"], "requires")?;
+            let name = r.get("name").and_then(TV::as_str).ok_or_else(|| Fail::new("C07:plan-require-without-name", text.to_string()))?.to_string();
+            let meta = r.get("metadata").cloned().unwrap_or(TV::Table(vec![]));
+            req.push((name, meta));
+        }
+        Ok((prov, req))
+    };
+    let mut got = vec![read_group(tv)?];
+    for o in tables(tv, "or")? {
+        only_keys(o, &["provides", "requires"], "or")?;
+        got.push(read_group(o)?);
+    }
+    ensure!(got.len() == groups.len(), "C07:plan-group-count", "{} groups read, {} constructed\n{text}", got.len(), groups.len());
+    for (i, (g, m)) in got.iter().zip(groups).enumerate() {
+        ensure!(g.0 == m.0, "C07:plan-provides-differ", "group {i}: provides read {:?}, constructed {:?}\n{text}", g.0, m.0);
+        ensure!(g.1.len() == m.1.len() && g.1.iter().zip(&m.1).all(|(a, b)| a.0 == b.0 && a.1.sem_eq(&b.1)), "C07:plan-requires-differ", "group {i}: requires read {:?}, constructed {:?}\n{text}", g.1, m.1);
+    }
+    Ok(())
+}
+
+pub fn launch_ops_json(ops: &[LOp]) -> Value {
+    doc_json(&Doc::Launch(ops.to_vec()))["launch"].clone()
+}
+pub fn launch_ops_from_json(v: &Value) -> Vec<LOp> {
+    match doc_from_json(&json!({"launch": v})) {
+        Doc::Launch(o) => o,
+        _ => unreachable!(),
+    }
+}
+pub fn plan_ops_json(ops: &[BOp]) -> Value {
+    doc_json(&Doc::BuildPlan(ops.to_vec()))["build_plan"].clone()
+}
+pub fn plan_ops_from_json(v: &Value) -> Vec<BOp> {
+    match doc_from_json(&json!({"build_plan": v})) {
+        Doc::BuildPlan(o) => o,
+        _ => unreachable!(),
+    }
 }
